@@ -241,6 +241,35 @@ def aliasing_history(run, rng, steps):
     return steps, None
 
 
+def replay_witnesses(run):
+    import src.ir.types as tp
+    import src.ir.kotlin_types as kt
+    T, X, Y = tp.TypeParameter("T"), tp.TypeParameter("X"), tp.TypeParameter("Y")
+    Root = tp.TypeConstructor("Root", [T])
+    Base = tp.TypeConstructor("Base", [T], [Root.new([T])])
+    Lst = tp.TypeConstructor("Lst", [tp.TypeParameter("T", tp.Covariant)])
+    Foo = tp.TypeConstructor("Foo", [X], [Base.new([Lst.new([X])])])
+    Bad = tp.TypeConstructor("Bad", [X], [Base.new([Y])])
+    out = {}
+    # 1. a replacement that contains a type variable is not substituted into supertypes
+    r = tp.substitute_type(Foo.new([Y]), {})
+    out["skip_with_type_variable"] = export.short(r.supertypes[0]) == "Base<Lst<X>>"
+    # 2. a declared supertype mentioning a variable that is not a parameter keeps stale supertypes
+    r = Bad.new([kt.String]).supertypes[0]
+    out["unbound_variable_in_declaration"] = export.short(r) == "Base<Y>" and export.short(r.supertypes[0]) == "Root<T>"
+    # 3. an instantiation built directly (not through new) is not equal to its empty substitution
+    t = tp.ParameterizedType(Foo, [kt.String])
+    out["inconsistent_instance_empty_substitution"] = not (tp.substitute_type(t, {}) == t)
+    t2 = Foo.new([Lst.new([kt.String])])
+    out["consistent_instance_empty_substitution_equal"] = bool(tp.substitute_type(t2, {}) == t2)
+    for k, v in out.items():
+        if not v:
+            run.violation({"kind": "broken-correspondence", "correspondence": "Props/C07 counterexample witness " + k,
+                           "note": "the real code no longer behaves as the counterexample theorem of the model says"},
+                          signature="witness:" + k, no_input=True)
+    return out
+
+
 def check(run):
     regen_c07.regen_writes()
     proofs_ok = run.build_and_audit()
@@ -287,6 +316,10 @@ def check(run):
             run.violation({"kind": "broken-correspondence", "correspondence": "types.py substitution vs Model/Subst",
                            "request": rq, "implementation": ia, "model": ma},
                           signature="%s:model-differs" % rq["op"], no_input=True)
+    # the three counterexample theorems of Props/C07 (getSubst_eq_substS / new_supertypes /
+    # subst_empty without their hypotheses) replayed on the real code: they must show the same
+    # behaviour there (they are statements about what the code does outside the hypotheses)
+    run.cov["counterexample_witnesses_on_real_code"] = replay_witnesses(run)
     # aliasing observation
     hist = 20 if quick else 120
     steps = 200 if quick else 2000
